@@ -40,7 +40,7 @@ table ``G.UNIT``):
                    d = 1e-9 x (1 + max|q| + |c| + largest lever arm)  (i.e. >= 10^5 times the
                    actual rounding; for (regular) polygons instead: distance to the nearest edge
                    > 4 d).  The closest generated queries sit 2^-10 relative (>= 1.2e-4 pixel for
-                   the smallest size 0.25) from the boundary, d is at most 2.7e-5, so both sides
+                   the smallest size 0.25) from the boundary, d is below 3e-5, so both sides
                    of the boundary stay populated;
 * rotating back    ``B = R.rotate(c, -theta)`` restores every parameter of reg: positions within
                    1e-9 x (1 + |coordinates| + lever arm), sizes bit-identical, angle within 1e-9 deg
@@ -64,13 +64,14 @@ in floating point.  They are covered through the equivalent ``PolygonPixelRegion
 ``RegularPolygonPixelRegion.to_polygon()`` vertices rounded to multiples of 2^-20 (a dyadic
 generic polygon); bounding boxes of regular polygons themselves are not judged.
 
-Excepted configurations (listed in the evidence axis ``tr_excepted``): rotated ellipses /
-rectangles (and annuli / compounds made of them) whose TRUE extent lies within 1e-9 of a pixel
-edge (k + 1/2).  Their extent is an irrational number evaluated with rounding (cos/sin), the
-box of the mathematical region is ambiguous there (e.g. an ellipse with width == height at
-30 deg is a circle whose extent cx - a*sqrt(cos^2 + sin^2) lands on the edge up to 1 ulp),
-and fl(cx + T - dx) need not equal fl(cx - dx) + T.  Un-rotated shapes are never excepted (all
-arithmetic is exact there).
+Excepted (counted per (spec, T) in the evidence axis ``tr_excepted``): a bounding-box mismatch by exactly one
+pixel on a side where the TRUE extent of a rotated ellipse / rectangle (or of a part of an annulus / compound)
+lies within 1e-9 of a pixel edge (k + 1/2).  That extent is an irrational number evaluated with rounding
+(cos/sin), both boxes are boxes of the mathematical region there (e.g. an ellipse with width == height at
+30 deg is a circle whose extent cx - a*sqrt(cos^2 + sin^2) lands on the edge up to 1 ulp), and
+fl(cx + T - dx) need not equal fl(cx - dx) + T.  Masks of such a pair have different shapes and are not
+compared; whenever the boxes agree the masks are compared as usual.  Sides of un-rotated shapes are never
+excepted (all arithmetic is exact there).
 
 Mask differences are classified with exact rational arithmetic: for polygons a differing pixel
 is "edge-explained" when the difference is at most (number of its n x n sub-samples lying
@@ -135,7 +136,7 @@ ASSUMPTIONS = [
     'polygon / regular-polygon area may change by 64 ulp(largest coordinate) x perimeter under rotation '
     '(rounding of the rotated vertices)',
     'angles differing by whole turns and the Quantity/Angle container type of the rotated angle are accepted',
-    'translation: rotated ellipses/rectangles whose true extent is within 1e-9 of a pixel edge are excepted; '
+    'translation: a one-pixel box mismatch on a side where the true, trig-evaluated extent of a rotated ellipse/rectangle is within 1e-9 of a pixel edge is excepted; '
     'regular polygons are covered through the equivalent polygon with vertices rounded to 2^-20',
     'compiled overlap kernels are checked as built (Cython sources cannot be rebuilt in the sandbox)',
 ]
@@ -696,24 +697,25 @@ def translate_spec(spec, tx, ty):
     return s
 
 
-def _near_edge(ext):
-    return any(abs((e + 0.5) - round(e + 0.5)) < 1e-9 * (1.0 + abs(e)) for e in ext)
+def _edge_sides(ext):
+    return {k for k, e in enumerate(ext) if abs((e + 0.5) - round(e + 0.5)) < 1e-9 * (1.0 + abs(e))}
 
 
-def extent_ambiguous(spec):
-    """True when a trig-evaluated true extent of the spec (or of a part of it) lies on a pixel edge."""
+def ambiguous_sides(spec):
+    """Sides (0 xmin, 1 xmax, 2 ymin, 3 ymax) on which a trig-evaluated TRUE extent of the spec (or of a part of
+    it: compound operands, inner shape of an annulus) lies on a pixel edge k + 1/2 (within 1e-9)."""
     cls = spec['cls']
     if cls == 'compound':
-        return extent_ambiguous(spec['r1']) or extent_ambiguous(spec['r2'])
+        return ambiguous_sides(spec['r1']) | ambiguous_sides(spec['r2'])
     ext, trig = G.Ref(spec).extent()
-    if trig and _near_edge(ext):
-        return True
+    out = _edge_sides(ext) if trig else set()
     if cls in ('ellipseannulus', 'rectangleannulus'):
         inner = {'cls': cls[:-7], 'center': spec['center'], 'width': spec['inner_width'],
                  'height': spec['inner_height'], 'angle': spec.get('angle')}
         ext, trig = G.Ref(inner).extent()
-        return bool(trig and _near_edge(ext))
-    return False
+        if trig:
+            out |= _edge_sides(ext)
+    return out
 
 
 def _box(b):
@@ -763,9 +765,8 @@ def _classify_mask_diff(spec, b0, d0, d2, n):
 def check_tr(res, spec, ts=TS, modes=MODES, first_only=True):
     cls = spec['cls']
     res.axis('tr_cls', cls)
-    if extent_ambiguous(spec):
-        res.axis('tr_excepted', cls)
-        return
+    amb = ambiguous_sides(spec)
+    res.axis('tr_edge_ambiguous_sides', len(amb))
     reg0 = G.build(spec)
     b0 = _box(reg0.bounding_box)
     base = {}
@@ -788,6 +789,12 @@ def check_tr(res, spec, ts=TS, modes=MODES, first_only=True):
             res.violation(ID, 'unexpected_exception', case, f'bounding_box of the translated region raised {type(exc).__name__}: {exc}')
             continue
         want = [b0[0] + tx, b0[1] + tx, b0[2] + ty, b0[3] + ty]
+        if b2 != want and all((b2[k] == want[k]) or (k in amb and abs(b2[k] - want[k]) == 1) for k in range(4)):
+            # the true extent sits on a pixel edge and is evaluated with cos/sin: both boxes are boxes of the
+            # mathematical region (see module docstring); masks of different shape cannot be compared
+            res.axis('tr_excepted', cls)
+            res.outcome(('tr', cls, 'bbox', 'edge-ambiguous'))
+            continue
         if b2 != want:
             if 'bbox' not in reported or not first_only:
                 reported.add('bbox')
